@@ -188,7 +188,15 @@ pub assume_specification<T: Clone> [ <[T]>::to_vec ] (s: &[T]) -> (r: Vec<T>)
     ensures r@.len() == s@.len(), forall |i: int| 0 <= i < s@.len() ==> cloned(s@[i], #[trigger] r@[i]);
 pub assume_specification<T> [ <[T]>::reverse ] (s: &mut [T])
     ensures final(s)@.len() == old(s)@.len(), forall |i: int| 0 <= i < old(s)@.len() ==> final(s)@[i] == old(s)@[old(s)@.len() - 1 - i];
-pub assume_specification<T, F: FnMut(&T, &T) -> Ordering> [ <[T]>::sort_by ] (s: &mut [T], f: F);
+/// A-STD: `sort_by` returns a permutation in which no earlier element compares Greater than a later one
+/// (std documents this for comparators that are total orders; the comparators used here are proved/assumed lawful, C16)
+pub assume_specification<T, F: FnMut(&T, &T) -> Ordering> [ <[T]>::sort_by ] (s: &mut [T], f: F)
+    requires forall |a: &T, b: &T| call_requires(f, (a, b)),
+    ensures
+        final(s)@.len() == old(s)@.len(),
+        final(s)@.to_multiset() == old(s)@.to_multiset(),
+        forall |i: int, j: int| #![trigger final(s)@[i], final(s)@[j]] 0 <= i < j < final(s)@.len() ==>
+            exists |o: Ordering| #![trigger call_ensures(f, (&final(s)@[i], &final(s)@[j]), o)] call_ensures(f, (&final(s)@[i], &final(s)@[j]), o) && !(o is Greater);
 pub uninterp spec fn trimmed(s: Seq<char>) -> Seq<char>;
 pub uninterp spec fn count_char(s: Seq<char>, c: char) -> nat;
 pub assume_specification [ str::trim ] (s: &str) -> (r: &str)
